@@ -85,6 +85,7 @@ func ExecStoreWorld(p *engine.Plan, st *engine.Stats) *engine.Violation {
 	x := &storeExec{xctx: xctx{prop: p.Property, plan: p, st: st}, nodes: map[int]*snode{}, msgs: map[int]*smsg{}}
 	setMapOrder(p.Cfg("maporder", "asc"), p.Seed^uint64(p.Run)*0x9E3779B97F4A7C15)
 	defer setMapOrder("asc", 0)
+	setSpanBudgets(p, 1<<16, 1<<22)
 	return x.run(func() {
 		for _, n := range p.Nodes {
 			if n.Role != "store" {
